@@ -519,6 +519,42 @@ pub fn run(ctx: &Ctx) -> i32 {
         positions_inside(bytes, "random binary").map_err(|(kk, dd)| Failure::new("random-binary", &kk, dd, json!({"bytes": bytes})))
     });
     rep.add(out);
+    // (3b) a byte-order mark followed by content that is malformed for the marked encoding (an odd
+    // number of bytes, an unpaired surrogate, a Windows-1252 text that an editor put a UTF-8 mark in
+    // front of ...): "arbitrary other byte content is handled like any text" - a verdict, never a crash
+    {
+        let boms: [&[u8]; 3] = [&[0xEF, 0xBB, 0xBF], &[0xFF, 0xFE], &[0xFE, 0xFF]];
+        let tails: Vec<Vec<u8>> = vec![
+            vec![],
+            vec![0x41],
+            vec![0x41, 0x00, 0x42],
+            vec![0x00, 0xD8],
+            vec![0xD8, 0x00],
+            vec![0x00, 0xD8, 0x41, 0x00],
+            vec![0x00, 0xDC, 0x00, 0xD8],
+            vec![0xE9],
+            vec![0xC3, 0x28],
+            vec![0xF0, 0x9F],
+            vec![0xFF, 0xFF, 0xFF],
+            b"PROGRAM p\nVAR\nx : INT; (* caf\xe9 *)\nEND_VAR\nx := y;\nEND_PROGRAM\n".to_vec(),
+            b"P\x00R\x00O\x00G\x00R\x00A\x00M\x00 \x00p\x00\n\x00E\x00N\x00D\x00_\x00P\x00R\x00O\x00G\x00R\x00A\x00M\x00\n".to_vec(),
+            b"\x00P\x00R\x00O\x00G\x00R\x00A\x00M\x00 \x00p\x00\n\x00E\x00N\x00D\x00_\x00P\x00R\x00O\x00G\x00R\x00A\x00M\x00\n\x00".to_vec(),
+        ];
+        let mut items: Vec<Vec<u8>> = vec![];
+        for b in boms.iter() {
+            for t in tails.iter() {
+                let mut v = b.to_vec();
+                v.extend_from_slice(t);
+                items.push(v);
+            }
+        }
+        let out = run_items(&items, ctx.threads, |bytes, stats| {
+            stats.case(true, crate::tape::fnv(bytes));
+            stats.class("mark-then-malformed-content");
+            positions_inside(bytes, "byte-order mark followed by malformed content").map_err(|(kk, dd)| Failure::new("random-binary", &kk, dd, json!({"bytes": bytes})))
+        });
+        rep.add(out);
+    }
     // (1) encodings
     let cases = ctx.tier.pick(800, 15_000);
     let out = run_tapes("C14", ctx.seed, ctx.threads, cases, 600, |tape, stats, counting| {
